@@ -201,7 +201,7 @@ def each_calls(body, coll_pat, method, env=None, allow_guard=None):
         if n["k"] == "For" and match(cp, n["iter"], {}, env):
             names = [b["name"] for b in walk(n["pat"]) if b["k"] == "PIdent"]
             for c in walk(n["body"]):
-                if c["k"] == "MethodCall" and c["method"] == method and render(strip(c["recv"])) in names:
+                if c["k"] == "MethodCall" and c["method"] == method and (render(strip(c["recv"])) in names or any(render(strip(a)) in names for a in c["args"])):
                     cs = [fact_str(x) for x in (conditions_to(n["body"], c) or []) if not (allow_guard and allow_guard(x))]
                     if not cs:
                         return True, "for-loop"
@@ -223,8 +223,8 @@ def each_calls(body, coll_pat, method, env=None, allow_guard=None):
                 if cl["k"] == "Closure":
                     names = [b["name"] for p in cl["inputs"] for b in walk(p) if b["k"] == "PIdent"]
                     for c in walk(cl["body"]):
-                        if c["k"] == "MethodCall" and c["method"] == method and render(strip(c["recv"])) in names:
-                            cs = [fact_str(x) for x in (conditions_to(cl["body"], c) or [])]
+                        if c["k"] == "MethodCall" and c["method"] == method and (render(strip(c["recv"])) in names or any(render(strip(a)) in names for a in c["args"])):
+                            cs = [fact_str(x) for x in (conditions_to(cl["body"], c) or [])] if cl["body"] is not c else []
                             if not cs:
                                 return True, "iterator " + n["method"]
                             return False, "call guarded by %s" % cs
@@ -246,8 +246,6 @@ def visits_all_statements(fn, visitor=None):
     if not pv:
         return False, "no cfg parameter"
     cfg = pv[0]
-    if [r for r in walk(fn["body"]) if r["k"] in ("Return", "Break")]:
-        return False, "early exit in the pass"
     flat = "%s.iter().flat_map(|__b| __b.iter())" % cfg
     shapes = []
     for n, b in find(fn["body"], "for __b in %s.iter() { __body }" % cfg):
@@ -268,6 +266,10 @@ def visits_all_statements(fn, visitor=None):
     if len(shapes) != 1:
         return False, "expected one traversal of every statement of every block, found %d" % len(shapes)
     how, body, svar = shapes[0]
+    # no statement may be skipped: no early exit inside the traversal (exits before it are the caller's business)
+    trav = [n for n in walk(fn["body"]) if n["k"] in ("For", "MethodCall") and any(x is body for x in walk(n))]
+    if any(r["k"] in ("Return", "Break") for t_ in trav[:1] for r in walk(t_)):
+        return False, "%s: early exit inside the traversal" % how
     if visitor:
         cs_ = [c for c in walk(body) if c["k"] == "Call" and c["func"]["k"] == "Path" and c["func"]["path"].rsplit("::", 1)[-1] == visitor]
         if len(cs_) != 1 or render(strip(cs_[0]["args"][0])) != svar:
